@@ -147,7 +147,7 @@ def run(ctx):
         sym['E'] = E
     try:
         _symbolic()
-    except Inconclusive as e_:
+    except Exception as e_:          # whatever stops the symbolic part, the native differential below still runs
         ctx.inconclusive('encoder: %s' % e_)
     E = sym.get('E', 0)
     chk.discharge()
